@@ -1,4 +1,6 @@
--------------------------------- MODULE P2P --------------------------------
+-------------------------------- MODULE P2PCh ------------------------------
+(* P2P.tla with chunking switched on (RDProducerCh / RDConsumerCh): message k needs   *)
+(* Chunks[k] chunks.  Everything else (channels, faults, ticks, endpoints) is P2P.    *)
 (* Reliable point-to-point delivery of goakt, transcribed handler by handler:        *)
 (*   actor/reliable_delivery_producer_controller.go   (PC*, volatile path: no queue) *)
 (*   actor/reliable_delivery_consumer_controller.go   (CC*, whole messages)          *)
@@ -12,7 +14,7 @@
 (*           CC <-> consumer endpoint C  (local, FIFO, reliable: toC / fromC)         *)
 (* One PC session (no controller restart, as C42 scopes it).  Message ids are the     *)
 (* production index 1..N, so "payload in production order" is  id = seq.              *)
-EXTENDS RDProducer, RDConsumer, RDEndpoints, Bags
+EXTENDS RDProducerCh, RDConsumerCh, RDEndpointsCh, Bags
 
 CONSTANTS F,        \* fault budget (Drop + Dup on the two network channels)
           TP, TC,   \* tick budgets of the two controllers
@@ -98,7 +100,10 @@ CCStep(m, fromC0) ==
 (* ------------------------------------------------------------------------------ *)
 \* C42 (liveness goal): everything offered was produced, confirmed by the consumer and
 \* reported to the producer endpoint
-AllConfirmed == cc.conf = N /\ pc.conf = N /\ \A k \in 1..N : env.dconf[k] = 1
+LastSeq == LET RECURSIVE E(_)
+                E(k) == IF k = 0 THEN 0 ELSE E(k - 1) + Chunks[k]
+            IN E(N)
+AllConfirmed == cc.conf = LastSeq /\ pc.conf = LastSeq /\ \A k \in 1..N : env.dconf[k] = 1
 Quiet == c2p = EmptyBag /\ p2c = EmptyBag /\ fromP = <<>> /\ fromC = <<>>
 TimerGate == QuietTicks => (Quiet /\ ~AllConfirmed)
 
@@ -174,43 +179,52 @@ Next ==
 Spec == Init /\ [][Next]_vars
 
 (* ------------------------------------------------------------------------------ *)
-(* Properties                                                                      *)
+(* Properties (chunk-aware versions of the ones in P2P.tla)                        *)
 (* ------------------------------------------------------------------------------ *)
-\* C42 (safety): what the consumer is handed is the production order, gap-free; a
-\* Delivery is (re-)presented only while it is the unconfirmed one in flight
+RECURSIVE EndSeq(_)
+EndSeq(k) == IF k = 0 THEN 0 ELSE EndSeq(k - 1) + Chunks[k]      \* last sequence of message k
+StartSeq(k) == EndSeq(k - 1) + 1
+MsgOf(seq) == CHOOSE k \in 1..N : StartSeq(k) <= seq /\ seq <= EndSeq(k)
+Boundary(x) == \E k \in 0..N : x = EndSeq(k)
+MarkOK(e) == LET k == e.id IN
+  /\ k = MsgOf(e.seq)
+  /\ e.ch = (Chunks[k] > 1)
+  /\ e.first = (e.ch /\ e.seq = StartSeq(k))
+  /\ e.last = (e.ch /\ e.seq = EndSeq(k))
+
 InFlightIsNext ==
-  cc.inf.seq # 0 => cc.inf.seq = cc.exp /\ cc.inf.id = cc.inf.seq /\ cc.inf.seq = cc.conf + 1
-DeliveryOrder ==      \* every Delivery emitted in this step is the next unconfirmed message
+  cc.inf.seq # 0 => /\ cc.inf.id \in 1..N /\ StartSeq(cc.inf.id) = cc.exp /\ cc.inf.seq = EndSeq(cc.inf.id)
+                    /\ cc.exp = cc.conf + 1
+DeliveryOrder ==
   [][\A i \in 1..Len(outs') :
         outs'[i].m.t = "Delivery" =>
-          /\ outs'[i].m.seq = cc'.conf + 1
-          /\ outs'[i].m.id = outs'[i].m.seq
+          /\ outs'[i].m.id \in 1..N
+          /\ StartSeq(outs'[i].m.id) = cc'.conf + 1
+          /\ outs'[i].m.seq = EndSeq(outs'[i].m.id)
           /\ cc'.inf = [seq |-> outs'[i].m.seq, id |-> outs'[i].m.id]]_vars
-ConfirmStepwise ==    \* confirmations advance 1,2,3,...
-  [][cc'.conf = cc.conf \/ cc'.conf = cc.conf + 1]_vars
+ConfirmStepwise ==
+  [][cc'.conf = cc.conf \/ (\E k \in 1..N : StartSeq(k) = cc.conf + 1 /\ cc'.conf = EndSeq(k))]_vars
 Watermarks ==
-  /\ cc.exp = cc.conf + 1
-  /\ pc.conf <= cc.conf /\ cc.conf <= pc.cur /\ pc.cur <= env.produced
+  /\ cc.exp = cc.conf + 1 /\ Boundary(cc.conf) /\ Boundary(pc.conf) /\ Boundary(pc.cur)
+  /\ pc.conf <= cc.conf /\ cc.conf <= pc.cur /\ pc.cur <= EndSeq(env.produced)
   /\ Len(pc.unc) = pc.cur - pc.conf
-  /\ \A i \in 1..Len(pc.unc) : pc.unc[i].seq = pc.conf + i /\ pc.unc[i].id = pc.unc[i].seq
+  /\ \A i \in 1..Len(pc.unc) : pc.unc[i].seq = pc.conf + i /\ MarkOK(pc.unc[i])
 NoFailure == ~pc.failed /\ ~cc.failed
-ConfirmedOnce == \A k \in 1..N : env.dconf[k] <= 1 /\ (env.dconf[k] = 1 => k <= cc.conf)
+ConfirmedOnce == \A k \in 1..N : env.dconf[k] <= 1 /\ (env.dconf[k] = 1 => EndSeq(k) <= cc.conf)
 
-\* C43: nothing sequenced beyond the highest sequence the consumer requested; the
-\* receive buffer stays inside the window and never has to drop for lack of room
 DemandRespected ==
-  /\ \A m \in BagToSet(p2c) : m.t = "Seq" => m.seq <= cc.upTo
+  /\ \A m \in BagToSet(p2c) : m.t = "Seq" => m.seq <= cc.upTo /\ MarkOK(m)
   /\ pc.dem <= cc.upTo \/ cc.sess = 0
 EmitUnderDemand ==
   [][\A i \in 1..Len(outs') : outs'[i].m.t = "Seq" => outs'[i].m.seq <= pc'.dem /\ outs'[i].m.seq <= cc.upTo]_vars
 BufferInWindow ==
   /\ Len(cc.buf) <= W
-  /\ \A i \in 1..Len(cc.buf) : cc.buf[i].seq > cc.exp /\ cc.buf[i].seq <= cc.upTo /\ cc.buf[i].id = cc.buf[i].seq
+  /\ \A i \in 1..Len(cc.buf) : cc.buf[i].seq >= cc.exp /\ cc.buf[i].seq <= cc.upTo /\ MarkOK(cc.buf[i])
   /\ \A i \in 1..Len(cc.buf) - 1 : cc.buf[i].seq < cc.buf[i + 1].seq
+  /\ Len(cc.buf) > 0 /\ cc.buf[1].seq = cc.exp => cc.buf[1].ch     \* a whole message at exp is never left buffered while nothing is in flight ... or is in flight
+     \/ cc.inf.seq # 0
 NeverBufFull == [][\A i \in 1..Len(outs') : outs'[i].m.t # "BufFull"]_vars
 
-\* C42 (liveness): with fair message handling and fair timers, after finitely many
-\* network faults every produced message is eventually confirmed
 Fair ==
   /\ WF_vars(PCRecvLocal) /\ WF_vars(CCRecvLocal)
   /\ WF_vars(\E m \in BagToSet(c2p) : PCRecvNet(m))
